@@ -62,6 +62,14 @@ def tree_spec(draw, root="capsule", max_nodes=10, allow_links=True, names=None):
     nodes = []
     dirs = [root]
     existing = [n["p"] for n in SKELETON]
+    if draw(st.integers(0, 7)) == 0:
+        # a file whose path below the root is longer than 255 bytes although every single name is short enough
+        a, b = draw(st.sampled_from(["d" * 120, "l" * 100, "sub"])), draw(st.sampled_from(["d" * 120, "x" * 140]))
+        for p_, t_ in ((root + "/" + a, "dir"), (root + "/" + a + "/" + b, "dir"), (root + "/" + a + "/" + b + "/deep.gmi", "file")):
+            nodes.append({"p": p_, "t": t_, **({"c": "text"} if t_ == "file" else {})})
+            existing.append(p_)
+            if t_ == "dir":
+                dirs.append(p_)
     n_nodes = draw(st.integers(1, max_nodes))
     for _ in range(n_nodes):
         parent = draw(st.sampled_from(dirs))
